@@ -428,7 +428,7 @@ theorem step_rel {s1 : Sys (Arr Cnt)} {s2 : Sys Hist} (rel : RelS s1 s2) (o : Op
   | clock t =>
     have hle := hclk t rfl
     exact ⟨rfl, ⟨rfl, lt_of_lt_of_le hpos hle, rfl, List.Forall₂.imp (fun _ _ hab => hab.mono hle) hbrs⟩⟩
-  | entry id res =>
+  | entry id res batch =>
     obtain ⟨hc2, hcr⟩ := checkPass_rel res now1 now1 hbrs
     have hdec : (checkPass res now1 brs2).2.1 = (checkPass res now1 brs1).2.1 := by rw [hc2]
     have hevs : (checkPass res now1 brs2).2.2 = (checkPass res now1 brs1).2.2 := by rw [hc2]
@@ -467,8 +467,8 @@ theorem run_rel {s1 : Sys (Arr Cnt)} {s2 : Sys Hist} (rel : RelS s1 s2) (ops : L
     have ht' : Timed (step laOps s1 o).1.now os := by
       cases o with
       | clock t => exact ht.2
-      | entry id res =>
-        have : (step laOps s1 (.entry id res)).1.now = s1.now := by
+      | entry id res batch =>
+        have : (step laOps s1 (.entry id res batch)).1.now = s1.now := by
           simp only [step, doEntry]; split <;> rfl
         rw [this]; exact ht
       | exit id err =>
@@ -660,7 +660,7 @@ theorem step_local (ops : Rule → WinOps W) (s : Sys W) (o : Op) :
     ∃ mid e1 e2, (step ops s o).2.evs = e1 ++ e2 ∧ LocalSteps s.brs mid e1 ∧ LocalSteps mid (step ops s o).1.brs e2 := by
   cases o with
   | clock t => exact ⟨s.brs, [], [], rfl, LocalSteps.refl _, LocalSteps.refl _⟩
-  | entry id res =>
+  | entry id res batch =>
     simp only [step, doEntry]
     cases hd : (checkPass res s.now s.brs).2.1 with
     | none =>
